@@ -175,7 +175,15 @@ func registerIntrinsics(m map[string]modelFn) {
 	// Slow: the code running here takes its time. No effect on the symbolic run (schedules are
 	// fixed by the go policy); the native twin sleeps, so that a replayed counterexample of a
 	// "goroutine runs late" schedule shows the same order natively.
-	m[zzPkg+"Slow"] = func(e *Engine, st *State, c *callCtx) { e.finish(st, c, nil) }
+	m[zzPkg+"Slow"] = func(e *Engine, st *State, c *callCtx) {
+		st.clock += 30000000 // the modelled clock advances by the 30 ms the native twin sleeps
+		e.finish(st, c, nil)
+	}
+	m[zzPkg+"SlowFor"] = func(e *Engine, st *State, c *callCtx) {
+		ms := e.concreteInt(st, c.args[0], "SlowFor milliseconds")
+		st.clock += int64(ms) * 1000000
+		e.finish(st, c, nil)
+	}
 	m[zzPkg+"Cover"] = func(e *Engine, st *State, c *callCtx) {
 		name := e.argString(st, c.args[0])
 		cond := c.args[1].(*Term)
